@@ -34,6 +34,8 @@ def main():
         name = "r5" + name      # fifth round
     if "/mut6-" in mdir:
         name = "r6" + name      # sixth round
+    if "/mut7-" in mdir:
+        name = "r7" + name      # seventh round
     meta = json.load(open(os.path.join(mdir, "meta.json")))
     readme = open(os.path.join(mdir, "demo", "README.txt")).read() if os.path.exists(os.path.join(mdir, "demo", "README.txt")) else ""
     orig_repo = os.path.dirname(os.path.dirname(mdir)) + "/repo"
